@@ -103,3 +103,9 @@ package sample
 //@ spec dynamicKey(prefix string, rate int64, clearFrequency int64, maxKeys int, useTraceLength bool) string := makeDynsamplerKey(prefix, "dynamic", rate, nil)
 //@ lemma C12.key-reflects-environment props C12 : forall p string, r int64, cf int64, mk int, tl bool :: dynamicKey(p, r, cf, mk, tl) == makeDynsamplerKey(p, "dynamic", r, nil)
 //@ lemma C12.key-distinguishes-tuning props C12 finding F-C12-1 : forall p string, r int64, cf1 int64, cf2 int64, mk int, tl bool :: cf1 != cf2 ==> dynamicKey(p, r, cf1, mk, tl) != dynamicKey(p, r, cf2, mk, tl)
+
+// ---- C28: sampler start-up with any rate that passes validation (SampleRate >= 1, no upper bound)
+//@ contract sample.(*DeterministicSampler).Start#safety props C28 unshared
+//@   requires d != nil && d.Config != nil
+//@   requires[validated] d.Config.SampleRate >= 1
+//@   modifies d.sampleRate, d.upperBound, d.Metrics, d.metricNames
